@@ -202,6 +202,8 @@ def first_guard(fn: ast.FunctionDef) -> Optional[Guard]:
         # statements without control flow before the guard (a logging call, a constant binding) do not change which formulas the handler takes
         if isinstance(st, ast.Assign) and isinstance(st.value, ast.Constant):
             continue
+        if isinstance(st, (ast.Assert, ast.Pass)):
+            continue
         if isinstance(st, ast.Expr) and isinstance(st.value, ast.Call) and (call_name(st.value) or "").split(".")[-1] in ("debug", "info", "warning", "log"):
             continue
         return None
